@@ -19,9 +19,13 @@ RULES = {
              "status = current_status(stored, env.block) and threshold = stored.threshold.to_response(stored.total_weight)",
     "R03.5": "current_status table: result is Passed iff stored Open and is_passed; Rejected iff stored Open, not passed and "
              "(is_rejected or expired); otherwise the stored status (finite case split over the decisions of the function)",
+    "R03.7": "the rule that is applied is the rule that was configured: instantiate stores threshold and max_voting_period exactly as "
+             "the message gave them (validated, not narrowed or rewritten); proposals copy the stored threshold (R05.5)",
     "R03.6": "threshold-rule clauses shared with C04: no pass without Yes weight (R04.1); the arms of is_passed / is_rejected agree "
              "on strictness, base weight and complementary percentage (R04.4) - a deviating arm reports Rejected for a proposal "
-             "that can still pass, or both Passed and Rejected for one tally",
+             "that can still pass, or both Passed and Rejected for one tally; nothing but the documented conditions decides (R04.5); "
+             "the required Yes weight is rounded up with a factor that keeps nine decimals exact (R04.3, R04.6) - rounded down, a "
+             "proposal passes with a Yes share below its threshold",
 }
 FIELD_OF_VOTE = {"Yes": "yes", "No": "no", "Abstain": "abstain", "Veto": "veto"}
 
@@ -131,13 +135,16 @@ def run(ctx):
     check_total(ctx)
     check_table(ctx)
     check_queries(ctx, it)
+    from ..idioms import config_as_configured
+    config_as_configured(ctx, "R03.7", "cw3_fixed_multisig", it["fixed_config"], ("threshold", "max_voting_period"), "fixed")
+    config_as_configured(ctx, "R03.7", "cw3_flex_multisig", it["flex_config"], ("threshold", "max_voting_period"), "flex")
     # R03.6 = R04.1
     sub = type(ctx)(ctx.pid, ctx.facts, ctx.engine, ctx.tier, ctx.tree_hash)
     C04.run(sub)
     for k in sub.order:
         o = sub.obs[k]
-        if o.rule in ("R04.1", "R04.4") and not o.key.startswith(("anchor", "floor")):
-            ctx.ob("R03.6", o.key, o.status == "discharged" or None if o.status == "undecided" else o.status == "discharged",
+        if o.rule in ("R04.1", "R04.3", "R04.4", "R04.5", "R04.6") and not o.key.startswith(("anchor", "floor")):
+            ctx.ob("R03.6", o.rule + " " + o.key if o.rule not in ("R04.1", "R04.4") else o.key, o.status == "discharged" or None if o.status == "undecided" else o.status == "discharged",
                    detail="; ".join(o.details), sites=o.sites, sample=o.sample)
 
 
@@ -156,13 +163,40 @@ def check_total(ctx):
            sample={"total": show(ps[0].ret)[:160] if ps else None})
 
 
+def delegates(ctx, fn, depth=2):
+    """workspace functions whose result `fn` returns as its own (the call that writes fn's return place), transitively"""
+    out = set()
+    b = ctx.facts.bodies.get(fn)
+    if b is None or depth == 0:
+        return out
+    for bl in b.blocks:
+        t = bl["term"]
+        if t.get("t") == "call" and t.get("dest", {}).get("l") == 0 and not t["dest"].get("p"):
+            g = t.get("resolved") or t.get("callee")
+            if g not in ctx.facts.bodies and g:
+                from ..facts import strip_generics
+                g = strip_generics(g)
+            if g in ctx.facts.bodies and g != fn:
+                out.add(g)
+                out |= delegates(ctx, g, depth - 1)
+    return out
+
+
 def check_table(ctx):
     b = ctx.facts.bodies.get(CS)
     if not ctx.ob("R03.5", "anchor:current_status", b is not None, detail="Proposal::current_status not found", trivial=True):
         return
-    ps = ctx.summarise(CS, opaque={IS_PASSED, IS_REJECTED})
+    # is_passed / is_rejected may hand their whole decision to another workspace function (`self.tally(block).passed()`): a call
+    # to that function on a value built from `self` is the same decision
+    PASSED_FNS = {IS_PASSED} | delegates(ctx, IS_PASSED)
+    REJECTED_FNS = {IS_REJECTED} | delegates(ctx, IS_REJECTED)
+    ps = ctx.summarise(CS, opaque=PASSED_FNS | REJECTED_FNS)
     SELF = ("param", "self")
     stored = ("field", SELF, "status")
+
+    def about_self(args):
+        ps_ = [x for a in args for x in walk(a) if x[0] == "param"]
+        return bool(ps_) and all(x in (SELF, ("param", "block")) for x in ps_) and SELF in ps_
     n = 0
     for p in ps:
         is_open = passed = rejected = expired = None
@@ -177,9 +211,9 @@ def check_table(ctx):
                 is_open = o
             elif t == stored and isinstance(o, str):
                 pass            # a `match` / `matches!` on the stored status: accounted for by possible_variants above
-            elif t[0] == "call" and t[1] == IS_PASSED and t[2][0] == SELF:
+            elif t[0] == "call" and t[1] in PASSED_FNS and about_self(t[2]):
                 passed = o
-            elif t[0] == "call" and t[1] == IS_REJECTED and t[2][0] == SELF:
+            elif t[0] == "call" and t[1] in REJECTED_FNS and about_self(t[2]):
                 rejected = o
             elif t[0] == "call" and t[1] == IS_EXPIRED and t[2][0] == ("field", SELF, "expires"):
                 expired = o
